@@ -18,6 +18,7 @@ class ClassInfo:
         self.props = {}        # name -> FunctionDef
         self.consts = {}       # name -> ast expr (class-level assignments)
         self.inner = {}        # nested classes
+        self.annotations = []  # annotated fields in order (NamedTuple / dataclass style)
         for st in node.body:
             if isinstance(st, ast.FunctionDef):
                 decos = [_deco_name(d) for d in st.decorator_list]
@@ -29,8 +30,10 @@ class ClassInfo:
                     self.methods[st.name] = (st, "classmethod" in decos, "staticmethod" in decos)
             elif isinstance(st, ast.Assign) and len(st.targets) == 1 and isinstance(st.targets[0], ast.Name):
                 self.consts[st.targets[0].id] = st.value
-            elif isinstance(st, ast.AnnAssign) and isinstance(st.target, ast.Name) and st.value is not None:
-                self.consts[st.target.id] = st.value
+            elif isinstance(st, ast.AnnAssign) and isinstance(st.target, ast.Name):
+                self.annotations.append(st.target.id)
+                if st.value is not None:
+                    self.consts[st.target.id] = st.value
 
 
 def _deco_name(d):
